@@ -3,22 +3,44 @@ from common import LEAN_TB
 CFG = {'lean_modules': ['ObiVerif.Props.C04'],
  'gen': False,
  'thorough_seeds': 4,
- 'rule': 'cases = (writer, formatting workers, arrival history of (order, record count) chunks): corpus of drain-after-turn / empty-batch histories, random '
-         'permutations of up to 7 batches with random empty subsets, every permutation of n<=5 batches in the thorough tier; with one formatting worker the '
-         'harness forces the arrival order at the writer goroutine; non-trivial = distinct history with at least two chunks',
- 'technique': 'Lean 4 theorem on the re-sequencing writer machine for every arrival permutation and every set of empty batches + differential correspondence '
-              'with the real writers driven in forced arrival orders + decode-back oracle',
- 'level_text': 'For every n, every arrival permutation of chunks 0..n-1 and every subset of empty chunks, the model of the four writers emits the chunks once, '
-               "in order (FASTA/FASTQ/CSV: concatenation; JSON: '[\\n' + non-empty chunks joined by ',\\n' + '\\n]\\n', which is the array of the records when "
-               'each chunk is the join of its records) — proved in Lean by the invariant of the re-sequencing buffer. The model is tied to the real '
-               'WriteFasta/WriteFastq/WriteJSON/WriteCSV by running them on forced arrival histories and comparing bytes; encoding/json and encoding/csv '
-               'decode the real output back into the records (failing-input search).',
- 'level_note': 'Trusted: Lean kernel; the transcription of the writer loop (Model/Reseq.lean, Model/Writer.lean); per-batch formatters are data for the model '
-               '(their output is fed to it) and are checked by the decode-back oracle only; goroutine liveness (Close protocol) is exercised under a watchdog, '
-               'not proved.',
- 'trusted_base': LEAN_TB + ['per-batch formatter output (FormatFastaBatch, FormatFastqBatch, FormatJSONBatch, FormatCVSBatch) taken as data',
- 'encoding/json and encoding/csv as decode-back oracle'],
+ 'rule': 'cases = (writer, formatting workers 1..16, plain/gzip output, skip-empty flag, CSV column selection + NA value, annotation flavour, '
+         'paired files, arrival history of (batch number, record count, size class) chunks): corpus of drain-after-turn / empty-batch / late-batch-0 '
+         'histories, chunk sizes straddling the 4096-byte buffer of the output wrapper (small/LARGE/small, LARGE/small/LARGE, chunks of exactly '
+         '4094..4098 bytes) plain and compressed, 24 large batches through 16 and 5 workers, records with separators/quotes/CR/LF/leading blanks/'
+         'control characters/backslash-u in identifiers, keys and values (nested lists and maps), random permutations of up to 7 batches; thorough: '
+         'every permutation of n<=6 batches, every subset of empty batches of 5 batches, 1..16 workers; with one formatting worker the harness forces '
+         'the arrival order at the writer goroutine; non-trivial = distinct history with at least two chunks',
+ 'technique': 'Lean 4 theorems on the re-sequencing writer machine composed with the model of the four per-batch formatters (every arrival permutation, every '
+              'set of empty batches, arbitrary field bytes) + byte-for-byte differential correspondence of the whole output (formatters included) with the real '
+              'writers driven in forced arrival orders, plain and gzip + independent re-sequencing / decode-back oracles (encoding/json, encoding/csv, line readers)',
+ 'level_text': 'For every n, every arrival permutation of batches 0..n-1 and every subset of empty batches, proved in Lean on the model of formatters + writer: '
+               '(FASTA) the file is read back by the chunk parser of /repo (7-state machine + header parser, model of C02) as exactly the records of all batches in '
+               'order [fasta_file_reads_back]; (FASTQ) the file is the four-line records in batch order [fastq_file_is_records_in_order]; (CSV, n>=1) the file is the '
+               'header line once, first, then one row per record in order, and the model of encoding/csv Reader reads it back with every field unchanged up to the '
+               "reader's CRLF->LF, for arbitrary field bytes incl. quotes, commas, CR, LF, leading blanks [csv_file_reads_back, CsvRT.parse_csvRows]; (JSON) the file is "
+               "'[\\n' + the record texts joined by ',\\n' + '\\n]\\n', the empty array on empty input [json_file_is_array_of_record_texts, json_empty_input], and every "
+               'string literal written is a valid JSON string body denoting the string [json_string_wellformed]. The model (formatters included: FormatFastaBatch, '
+               'FormatFastqBatch, JSONRecord/FormatJSONBatch, CSVHeader/CSVRecord/FormatCVSBatch, csv.Writer quoting, %v) is tied to the real writers by comparing the '
+               'whole output byte for byte on every case, and the CSV reader model is compared with csv.Reader on every CSV output.',
+ 'level_note': 'Proved for all inputs: re-sequencing (all permutations/empty sets), FASTA parse-back of the whole file, CSV header-once + full round trip through the reader '
+               'model, JSON array framing over the real record texts, JSON string escaping. NOT proved (tied by correspondence + decode-back oracle only): that the 12-state '
+               'FASTQ parser reads a *sequence* of written records back (single record: C02); that the indented text of a nested JSON value (objects/arrays/numbers/'
+               'indentation of jVal) is a JSON value — only string literals and the array framing are theorems, encoding/json decodes every output in the harness; that '
+               'CsvRead.parse equals encoding/csv Reader on inputs other than writer outputs. Not modelled: float attributes, invalid UTF-8 (goccy substitutes U+FFFD), '
+               'InterfaceToInt conversions of a non-int count/taxid, csv_auto column detection, the title-line annotation text of FASTA/FASTQ (FormatFastSeqJsonHeader is '
+               'data here, property C02), gzip (the harness decompresses the real output; order of bytes through Wfile/bufio/pgzip is checked by comparison only), the '
+               'second file of a paired output (oracle only: same identifiers in the same order). Goroutine liveness (Close protocol) is exercised under a watchdog, not proved. '
+               'The model of JSONRecord is the REPAIRED behaviour (notes/patches/C04-json-unescape-breaks-escapes.diff): the unrepaired code wrote raw control characters / '
+               'broke an escaped backslash followed by u (oracle json.invalid on the corpus cases with f=3).',
+ 'trusted_base': LEAN_TB + ['title-line annotation text of FASTA/FASTQ (FormatFastSeqJsonHeader) taken as data (C02)',
+ 'encoding/json and encoding/csv as decode-back oracles; compress/gzip to read the compressed output back',
+ 'goccy/go-json MarshalIndent layout and key order as transcribed in WriterFmt.jVal (validated by byte comparison on every JSON case)'],
  'modelled': 'WriteSeqFileChunk (seqfile_chunk_write.go), writer goroutines of WriteJSON (json_writer.go) and WriteCSV (csv_writer.go): next/received/drain '
-             'loop and framing',
+             'loop and framing; FormatFastaBatch / FormatFastqBatch (record layout of Model/Header.lean, skipEmpty / fatal on empty sequence); JSONRecord + '
+             '_UnescapeUnicodeCharactersInJSON + FormatJSONBatch (key order, indentation, escaping); CSVHeader, CSVRecord (column selection, count/taxid defaults, '
+             'scientific_name/root/NA, definition, reserved keys id/sequence/qualities, %v rendering of strings/ints/bools/lists/maps, unclamped quality column), '
+             'csv.Writer.Write with fieldNeedsQuotes and quote doubling, FormatCVSBatch (header with batch 0 only); a model of encoding/csv Reader (CsvRead)',
  'assumptions': ['each batch number is delivered once to the writer (Contract of C03)',
-                 'channel blocking and goroutine termination are runtime behaviour (watchdog only)']}
+                 'channel blocking and goroutine termination are runtime behaviour (watchdog only)',
+                 'attribute values are strings, ints, bools, lists and string-keyed maps of these; strings are valid UTF-8',
+                 'FASTA parse-back: records well formed in the sense of C02 (WF) and the JSON library contract J.OKat of C02 for the title-line annotations']}
